@@ -28,7 +28,8 @@ RULE = ("job = seed -> proof site x corruption class x key type x version. "
         "non-trivial = fault fired (or honest twin completed)"
         ' Further sites/classes: delegated credential (honest twin; flipped delegation; delegation by another key; impostor chain with the credential on the second entry or on the victim entry), post-handshake Finished flipped, SRP user name with no SRP suite offered, DER signatures extended INSIDE the SEQUENCE.'
         ' Consistent liar that really signs ServerKeyExchange with an unoffered hash; identical signatures in two different handshakes (proof independent of the transcript).'
-        ' SRP: a password-less client sending A = k*N (k = 0,1,2,3,7) with premaster 0.  Checker site in both roles, with the transport failing exactly at the refusal alert (the refused session must not stay resumable).  liar_scheme: the client really signs (in-handshake and post-handshake CertificateVerify) under a scheme that does not belong to its key.')
+        ' SRP: a password-less client sending A = k*N (k = 0,1,2,3,7) with premaster 0.  Checker site in both roles, with the transport failing exactly at the refusal alert (the refused session must not stay resumable).  liar_scheme: the client really signs (in-handshake and post-handshake CertificateVerify) under a scheme that does not belong to its key.'
+        ' An ordinary certificate handshake whose ClientHello merely names an SRP user (extension, no SRP suite) must not record that name.')
 LEVEL_TEXT = ("Seeded search over (site, corruption, key type, version); "
               "every run also executes the honest twin so that the oracle is "
               "shown not to alarm on valid proofs.")
@@ -406,6 +407,27 @@ def run(job, streams=None):
             return [msg]
         rules.append(rule)
         probes["srp_no_suite"] = 1
+    elif site == "srp" and ch.draw(4, "c.srpname") == 1:
+        # an ordinary certificate handshake whose ClientHello merely NAMES an
+        # SRP user (extension only, no SRP suite, no password proof): the
+        # handshake may complete, but the name must not be attributed
+        cls = "omitted"
+        sc2 = {"version": sc["version"], "flavour": "cert", "skey": "rsa",
+               "cset": dict(sc["cset"]), "sset": dict(sc["sset"])}
+        if sc["flavour"] == "srp_cert" and ch.draw(2, "c.srpdb") == 1:
+            sc2["flavour"] = "srp_cert"     # server that has a verifier DB
+            sc2["_client_flavour"] = "cert"
+
+        def rule(msg, c):
+            if type(msg).__name__ != "ClientHello":
+                return None
+            from tlslite.extensions import SRPExtension
+            msg.extensions = list(msg.extensions or []) + [
+                SRPExtension().create(bytearray(b"admin"))]
+            fired.append("srp_name_in_certificate_handshake")
+            return [msg]
+        rules.append(rule)
+        probes["srp_name_only"] = 1
     elif site == "srp" and ch.draw(3, "c.srpdeg") == 1:
         # a client that does not know the password sends A = k*N, for which
         # the server's premaster secret is the constant 0 whatever the
@@ -610,7 +632,14 @@ def run(job, streams=None):
           "the %s of two different handshakes (other randoms, same key) "
           "carries the very same signature: what is signed does not depend "
           "on the transcript, so the proof can be replayed" % same_sig[0])
-    if fired:
+    if fired and fired[0] == "srp_name_in_certificate_handshake":
+        verdict = vo.kind in ("ok", "exc")
+        name = vic.conn.session.srpUsername if vic.conn.session else None
+        if vo.kind == "ok" and name:
+            v("identity_without_proof", "srp_name_recorded",
+              "certificate handshake completed and the server session names "
+              "SRP user %r although no SRP exchange took place" % (name,))
+    elif fired:
         verdict = True
         if vo.kind == "ok":
             v("identity_without_proof", "%s" % cls,
